@@ -82,7 +82,9 @@ func (c *Channel) Send(msg []byte) error {
 	c.wg.Add(1)
 	go func() {
 		defer c.wg.Done()
+		verifPoint("hch.send.beforeDo")
 		rsp, err := cli.Do(req)
+		verifPoint("hch.send.afterDo")
 
 		// If the server replied with an empty acknowledgement for a
 		// notification, exit early so that we don't depend on a Recv.
@@ -97,6 +99,7 @@ func (c *Channel) Send(msg []byte) error {
 
 // Recv receives the next available response and reports its body.
 func (c *Channel) Recv() ([]byte, error) {
+	verifPoint("hch.recv.beforeWait")
 	next, ok := <-c.rsp
 	if !ok {
 		return nil, io.EOF
